@@ -75,30 +75,41 @@ Definition file_fits (adds : list add) (kvs : kv) : bool :=
                && existsb (fun fd => String.eqb (fdest "a" (f_name fd)) (fst p)
                                      && match f_kind fd with FInt => true | _ => false end) (d_fields (fst ad)))
             adds) kvs.
-Definition files_fit (ftbl : list (string * kv)) (adds : list add) (files : list string) : bool :=
-  forallb (fun fl => match find (fun p => String.eqb (fst p) fl) ftbl with
-                     | Some (_, kvs) => file_fits adds kvs
+(* a root-less file ({field: value}) fits the single dataclass it will be re-rooted under *)
+Definition rootless_fits (c : dcls) (kvs : kv) : bool :=
+  negb (has_sub c)
+  && forallb (fun p : string * string =>
+       negb (has_char "."%char (fst p))
+       && existsb (fun fd => String.eqb (f_name fd) (fst p) && match f_kind fd with FInt => true | _ => false end)
+                  (d_fields c)) kvs.
+(* which files a parser may name, by the nested mode of ITS definition: a WITHOUT_ROOT parser holding exactly one dataclass
+   (at "a", without subgroup field) takes root-less files, every other parser rooted ones (other combinations raise or leave
+   stray namespace attributes, paths the model does not follow) *)
+Definition files_fit (ftbl : list (string * kv)) (p : pstate) (files : list string) : bool :=
+  let adds := p_adds p in
+  forallb (fun fl => match find (fun q => String.eqb (fst q) fl) ftbl with
                      | None => true
+                     | Some (_, kvs) =>
+                         match nm (p_cfg p), adds with
+                         | NWithoutRoot, [(c, dest)] => String.eqb dest "a" && rootless_fits c kvs
+                         | _, _ => file_rooted kvs && file_fits adds kvs
+                         end
                      end) files.
 
 Definition op_in_scope (ftbl : list (string * kv)) (s : state) (o : op) : bool :=
   match o with
-  | Construct i c cr cfgarg => (negb cfgarg || nestmode_eqb (nm c) NDefault) && negb (crmode_eqb cr CRExplicit)
+  | Construct i c cr cfgarg => true
   | AddArgs i d dest =>
       match slot_get (st_slots s) i with
       | None => false
       | Some p => str_in dest ["a"; "b"] && negb (str_in dest (map snd (p_adds p))) && class_plain d
-                  (* the conflict resolver's renaming is not modelled: names are shared only where a clash just raises *)
-                  && (crmode_eqb (p_cr p) CRNone
-                      || negb (existsb (fun n => str_in n (flat_map (fun ad : add => class_names (fst ad)) (p_adds p)))
-                                       (class_names d)))
       end
   | Parse i argv =>
       match slot_get (st_slots s) i with
       | None => false
       | Some p => forallb tok_plain argv
                   && (negb (p_cfgarg p)
-                      || (files_fit ftbl (p_adds p) (fst (split_cfg argv))
+                      || (files_fit ftbl p (fst (split_cfg argv))
                           && forallb (fun fl => suffixb ".json" fl || negb (has_char "."%char fl)) (fst (split_cfg argv))))
       end
   | PrintHelp i | FormatHelp i =>
